@@ -246,6 +246,109 @@ def constraintCurrent [Add K] [Mul K] [OfNat K 0] (n : Net K) (sched : List (Lis
 
 end Net
 
+/-! ### The network together with the per-registration vectors `_phase_angles` / `_voltages`
+
+  Additive layer (nothing above is changed; `SchedView.lean` builds on `Net`).  `register_evse`
+  (charging_network.py:192-202) overwrites the dict entry of a known station id — the station list
+  keeps its length — but ALWAYS appends to `_voltages` and `_phase_angles`.  After re-registering
+  an id the vectors are longer than the station list. -/
+
+structure FullNet (K : Type) where
+  base : Net K
+  c : List K          -- Re e^{iφ} per `register_evse` call (`np.exp(1j*deg2rad(_phase_angles))`)
+  s : List K          -- Im e^{iφ}
+  voltages : List K   -- `_voltages`
+
+/-- operations with what `register_evse` is really given -/
+inductive FOp (K : Type) where
+  | register (id : String) (c s v : K)
+  | add (cur : Current K) (limit : K) (name : Option String)
+  | remove (name : String)
+  | update (name : String) (cur : Current K) (limit : K) (newName : Option String)
+
+def FOp.toOp {K : Type} : FOp K → Op K
+  | .register id _ _ _ => .register id
+  | .add c l nm => .add c l nm
+  | .remove nm => .remove nm
+  | .update nm c l nn => .update nm c l nn
+
+namespace FullNet
+variable {K : Type}
+
+def init : FullNet K := ⟨Net.init, [], [], []⟩
+
+/-- charging_network.py:192-202 -/
+def register (f : FullNet K) (id : String) (c s v : K) : FullNet K × Option Err :=
+  if f.base.matrix.isSome then (f, some .registration)
+  else ({ base := (f.base.register id).1, c := f.c ++ [c], s := f.s ++ [s],
+          voltages := f.voltages ++ [v] }, none)
+
+def step [OfNat K 0] (f : FullNet K) : FOp K → FullNet K × Option Err
+  | .register id c s v => f.register id c s v
+  | .add cur l nm => ({ f with base := (f.base.addConstraint cur l nm).1 }, (f.base.addConstraint cur l nm).2)
+  | .remove nm => ({ f with base := (f.base.removeConstraint nm).1 }, (f.base.removeConstraint nm).2)
+  | .update nm cur l nn =>
+    ({ f with base := (f.base.updateConstraint nm cur l nn).1 }, (f.base.updateConstraint nm cur l nn).2)
+
+def run [OfNat K 0] (f : FullNet K) (ops : List (FOp K)) : FullNet K :=
+  ops.foldl (fun f o => (f.step o).1) f
+
+def trace [OfNat K 0] (f : FullNet K) : List (FOp K) → List (Option Err)
+  | [] => []
+  | o :: os => (f.step o).2 :: trace (f.step o).1 os
+
+/-- the operation does not register an id that is already registered (a refused registration
+    counts as harmless: it changes nothing) -/
+def FreshOp (f : FullNet K) : FOp K → Prop
+  | .register id _ _ _ => id ∉ f.base.stations ∨ f.base.matrix.isSome = true
+  | _ => True
+
+/-- no operation of the history re-registers a registered id -/
+def FreshRun [OfNat K 0] (f : FullNet K) : List (FOp K) → Prop
+  | [] => True
+  | o :: os => FreshOp f o ∧ FreshRun (f.step o).1 os
+
+/-- numpy broadcasting of `schedule_matrix.T * angle_coeffs` (shapes `(T', R)` and `(A,)`):
+    the common width, or `none` (ValueError) -/
+def broadcastWidth (R A : Nat) : Option Nat :=
+  if R = A then some R else if R = 1 then some A else if A = 1 then some R else none
+
+/-- row `j` of `(schedule_matrix.T * coeffs).T` at column `t` for one component (cos or sin) of
+    the angle coefficients, with numpy's broadcasting of a single row / a single coefficient -/
+def phasorEntry [Mul K] [OfNat K 0] (sched : List (List K)) (coeffs : List K) (j t : Nat) : K :=
+  let x := (if sched.length = 1 then sched.headD [] else sched.getD j []).getD t 0
+  let a := if coeffs.length = 1 then coeffs.headD 0 else coeffs.getD j 0
+  x * a
+
+/-- charging_network.py:430-484, `linear=False`, with the network's own phase angles:
+    real and imaginary parts of `constraint_matrix[constraint_indices] @ phasor_schedule`.
+    Order of the failures as in the code: column indexing (IndexError), broadcasting against the
+    angle vector (ValueError), `None[...]` (TypeError), the matrix product's inner dimension
+    (ValueError). -/
+def constraintCurrent [Add K] [Mul K] [OfNat K 0] (f : FullNet K) (sched : List (List K)) (T : Nat)
+    (names : Option (List String)) (times : Option (List Int)) :
+    Except Err (List (List K) × List (List K)) :=
+  let idxs := Net.constraintIndices f.base.index names
+  match Net.selTimes T times with
+  | none => .error .indexError
+  | some cols =>
+    match broadcastWidth sched.length f.c.length with
+    | none => .error .valueError
+    | some W =>
+      match f.base.matrix with
+      | none => .error .typeError
+      | some rows =>
+        if f.base.stations.length ≠ W then .error .valueError
+        else
+          match idxs.mapM (fun i => rows[i]?) with
+          | none => .error .indexError
+          | some sel =>
+            let part := fun (coeffs : List K) => sel.map (fun r => cols.map (fun t =>
+              dotK r ((List.range W).map (fun j => phasorEntry sched coeffs j t))))
+            .ok (part f.c, part f.s)
+
+end FullNet
+
 /-! ### Specification: a plain list of constraints -/
 
 structure Constraint (K : Type) where
